@@ -37,7 +37,10 @@ Inductive c17_case :=
 | CS (acts : list act) (obs : list pobs) (e : ekind) (restored closing : bool)
 | CR (acts : list act) (obs : list pobs) (via : pobs) (restored closing : bool)
     (* as CS, but the session is left through Terminal::run / run_render returning `via` *)
-| CT (requested seen other : N) (last quiet : bool).
+| CT (requested seen other : N) (last quiet : bool)
+| CO (failed unchanged : bool).
+    (* SystemTerminal::open made to fail after the tty is known (no descriptors for the sockets): no
+       object exists, no Drop will run; the line settings must be the ones found *)
 
 Definition pobs_eqb (a b : pobs) : bool :=
   match a, b with
@@ -198,6 +201,7 @@ Fixpoint spec_run (o : outstanding) (hup : bool) (acts : list act) (obs : list p
       | AHup => spec_run o true rest obs
       | AFault _ => spec_run o hup rest obs
       | APoll tmo _ _ elapsed du spins =>
+          let owed_at_entry := owes o in
           (* a request issued while the thread sits in the poll is owed like any other *)
           let o := match du with
                    | DNone => o
@@ -210,7 +214,7 @@ Fixpoint spec_run (o : outstanding) (hup : bool) (acts : list act) (obs : list p
               timely tmo du (owes o) elapsed &&
               (* bounded in iterations too: with an event owed the loop does not go round on a tty that
                  is reported writable and takes nothing *)
-              (if owes o then spins <=? 1 else true) &&
+              (if owed_at_entry then spins <=? 1 else true) &&
               match ob with
               | OW => (0 <? o_may o)
                       && spec_run (mkO false (o_may o - 1) (o_winch o) (o_wmay o) (o_term o) (o_keys o)) hup rest obs'
@@ -249,6 +253,7 @@ Definition c17_check (c : c17_case) : bool * bool :=
   | CT requested seen other last quiet =>
       (* coalescing allowed, loss and invention impossible; a request after the storm is seen *)
       (true, (1 <=? seen) && (seen <=? requested) && (other =? 0) && last && quiet)
+  | CO failed unchanged => (failed, unchanged)
   end.
 
 Definition c17_report := report c17_check.
